@@ -1,4 +1,5 @@
 import Irismod.Props.C12_Random
+import Irismod.Proofs.RandomMonitor
 open Irismod Irismod.Random Irismod.Props.C12Random
 #print axioms genWF_of_queueInv
 #print axioms rnd_every_request_exported
@@ -14,3 +15,9 @@ open Irismod Irismod.Random Irismod.Props.C12Random
 #print axioms rnd_roundtrip_reachable
 -- non-vacuity: a queue with three requests due at one height and one at another exports as two groups of 3 and 1, re-imports to the same four entries, and restarts at zero height with heights 1 and 4
 #eval s!"nonvacuous {demoNonvacuous}"
+-- monitor soundness: everything `drv-random monitor C12` evaluates is `Spec.C18Mon.stepFails`; on the model's own observation it reports nothing but the known finding F-rnd-1 where its exclusion hypothesis is violated (Proofs/RandomMonitor.lean)
+#print axioms Irismod.Proofs.RandomMonitor.monitor_sound
+#print axioms Irismod.Proofs.RandomMonitor.line_inv
+#print axioms Irismod.Proofs.RandomMonitor.line_inv_reset
+#print axioms Irismod.Proofs.RandomMonitor.model_step_inv
+#print axioms Irismod.Proofs.RandomMonitor.post_tracks_model
